@@ -184,6 +184,32 @@ theorem installed_is_next (env : Env) (w : World) (op : Op) (k : Nat)
   simp only [View.nextNum, this, hd, hnx]
   rw [ho] at hk; simpa using hk
 
+/-- What an update that reports 'installed' leaves selected passes the boot-time validation
+    (size on disk, and signature over the file's own hash when a key is configured). -/
+theorem installed_next_valid (env : Env) (w : World) (op : Op) (k : Nat)
+    (h : installedBy op (postView env w op) = some k) :
+    ∃ m, (postView env w op).ps.next = some m ∧
+      (postView env w op).valid env (w.config.bind (·.key)) m = true := by
+  obtain ⟨chan, sc, c, rfl, hc, hi, _⟩ := installedBy_spec env w op k h
+  rw [updateCore_norm env c (w.base c) w.disk sc] at hi
+  have hst := normDisk_settled w.disk c.version
+  obtain ⟨o, out, _, hgood, hart, hnext⟩ := update_installed_sound env c (w.base c) _ sc hst hi
+  have hd : (step env w (.update chan sc)).1.disk = (updateCore env c (w.base c) (normDisk w.disk c.version) sc).1 := by
+    rw [← updateCore_norm]; simp [step, update, hc]
+  have hshow := showsDisk_view (step env w (.update chan sc)).1 (step env w (.update chan sc)).2.1 (step env w (.update chan sc)).2.2
+  have hps : (postView env w (.update chan sc)).ps = loadPatchesState (step env w (.update chan sc)).1.disk := rfl
+  refine ⟨_, by rw [hps, hd]; exact hnext, ?_⟩
+  have hv : (postView env w (.update chan sc)).valid env (w.config.bind (·.key))
+      { number := o.number, size := out.length, hash := o.hash, sig := o.sig } =
+      validate env (w.config.bind (·.key)) (step env w (.update chan sc)).1.disk
+        { number := o.number, size := out.length, hash := o.hash, sig := o.sig } := valid_of_shows env _ hshow _
+  rw [hv, hd]
+  obtain ⟨stream, b, _, _, _, _, hsig⟩ := hgood
+  unfold validate
+  simp only [hart, hc, Option.bind_some, ne_eq, not_true_eq_false, if_false]
+  unfold signatureOk at hsig
+  exact hsig
+
 theorem entersWith_key (K : Option String) (w : World) (op : Op) (c : Config)
     (hK : ∀ c, w.config = some c → c.key = K) (hop : InitKey K op) (he : entersWith w.config op = some c) : c.key = K := by
   cases op with
@@ -363,9 +389,11 @@ theorem C09_holds (env : Env) (K : Option String) (libs : List (String × Bytes)
         | none => rfl
         | some k =>
           simp only [firstFail_none_iff, List.mem_cons, List.mem_nil_iff, or_false]
-          rintro c rfl
-          simp only [decide_eq_true_eq]
-          exact installed_is_next env w op k hinst
+          rintro c (rfl | rfl)
+          · simp only [decide_eq_true_eq]
+            exact installed_is_next env w op k hinst
+          · obtain ⟨m, hm, hval⟩ := installed_next_valid env w op k hinst
+            simp only [hm, hcfg]; exact hval
       · rw [hnext]
         cases hsa : selAfter env w.config g.sel op pre (postView env w op) with
         | none => rfl
